@@ -85,8 +85,11 @@ template <class C, bool MULTI, bool ORDERED, bool MAP> struct SetDrv {
     template <class It> static bool ins_result(const It&) { return true; }
     template <class It> static int key_of(It it, std::false_type) { return *it; }
     template <class It> static int key_of(It it, std::true_type) { return it->first; }
+    static void do_rehash(C& c, int n, std::false_type) { c.rehash((size_t)n); }
+    static void do_rehash(C&, int, std::true_type) {}
     static std::string walk(C& c) { std::ostringstream s; bool f = true; for (auto it = c.begin(); it != c.end(); ++it) { s << (f ? "" : ",") << key_of(it, std::integral_constant<bool, MAP>()); f = false; } return s.str(); }
     static void op(C& c, int T, const std::string& o, int k) {
+        if (o == "rehash") { do_rehash(c, k, std::integral_constant<bool, ORDERED>()); return; }      // bucket count change without inserts (not part of the history)
         if (o == "trav") { TR.emit("{\"e\":\"TravB\",\"t\":%d}", T); std::string s = walk(c); TR.emit("{\"e\":\"TravE\",\"t\":%d,\"seen\":[%s]}", T, s.c_str()); return; }
         const char* aop = o == "ins" ? "insert" : o == "find" ? "find" : "count";
         TR.emit("{\"e\":\"Inv\",\"t\":%d,\"op\":\"%s\",\"k\":%d}", T, aop, k);
